@@ -1766,7 +1766,7 @@ fn compile_cexpr_effect(goenv: &GlobalGoEnv, expr: &anf::CExpr) -> Vec<goast::St
         | anf::CExpr::EToDyn { .. }
         | anf::CExpr::EProj { .. } => Vec::new(),
         anf::CExpr::ECall { .. } | anf::CExpr::EDynCall { .. } => {
-            vec![goast::Stmt::Expr(compile_cexpr(goenv, expr))]
+            vec![crate::go::dce::effect_stmt(compile_cexpr(goenv, expr))]
         }
         anf::CExpr::EGo { closure, .. } => {
             vec![compile_go(goenv, closure)]
